@@ -58,10 +58,9 @@ func (m *Params) ParamSetPairs() paramtypes.ParamSetPairs {
 }
 
 func (m *Params) validate() error {
-	if m.EnableVesting {
-		return validatePerBlockReward(m.PerBlockReward)
-	}
-	return nil
+	// the params store runs the registered validator on PerBlockReward whether or not vesting is enabled
+	// (Subspace.SetParamSet panics on a value it rejects), so genesis validation must not be more permissive
+	return validatePerBlockReward(m.PerBlockReward)
 }
 
 func DefaultParams() Params {
